@@ -108,6 +108,7 @@ def grid_hi(G, key):
 def work(chunk):
     key, lo, hi, ages, esaa, step = chunk[:6]
     spell = chunk[6] if len(chunk) > 6 else None        # (gender spelling, event spelling) passed to the function
+    optional = len(chunk) > 7 and chunk[7]              # a spelling that may be treated as an unknown pair (None / ValueError); if it is scored it must be right
     G = setup()
     g, e = key
     row = G['rows'][key]
@@ -149,8 +150,14 @@ def work(chunk):
                 try:
                     got = score(gs, es, v, age, esaa) if esaa else (score(gs, es, v, age) if age is not None else score(gs, es, v))
                 except Exception as ex:
+                    if optional and isinstance(ex, ValueError):
+                        acc.add('optional_spellings_refused')
+                        continue
                     acc.bad('score-raises:%s:%s' % (type(ex).__name__, 'age<35' if age is not None and age < 35 else 'age>=35' if age else 'no-age'),
                             case, 'raised %r; exact formula gives %d' % (ex, want))
+                    continue
+                if optional and got is None:
+                    acc.add('optional_spellings_refused')
                     continue
                 if type(got) is not int or got != want:
                     band = 'no-age' if age is None else ('age<35' if age < 35 else 'age>=35')
@@ -258,6 +265,22 @@ def run(tier):
             if sp != (g, e):
                 chunks.append((k, mid, mid + 400, [None, 50], False, 1, sp))
     merge(rep, pmap(work, chunks), part='letter-case spellings of gender / event on a window of each row (ages none, 50)')
+    # (2c) spellings with blanks inside or around the event code or gender: may count as an unknown pair, but if scored the points must be right
+    chunks = []
+    for k in keys:
+        if k in ALIASES:
+            continue
+        g, e = k
+        row = G['rows'][k]
+        knd = kind_of(G, row['ev'])
+        mid = int(row['Z'] * 100 * Decimal('0.6')) if knd == 'timed' else (int(row['Z']) + 150 if knd == 'jump' else int(row['Z'] * 100) + 1500)
+        import re as _re
+        inner = _re.sub(r'(?<=\d)(?=[A-Za-z])', ' ', e)
+        sps = [(g, ' ' + e), (g, e + ' '), (g, inner), (g, inner.lower()), (g, _re.sub(r'(?<=\d)(?=[A-Za-z])', '\t', e)), (' ' + g, e), (g + ' ', e)]
+        for sp in dict.fromkeys(sps):
+            if sp != (g, e):
+                chunks.append((k, mid, mid + 60, [None, 37, 50, 72], False, 1, sp, True))
+    merge(rep, pmap(work, chunks), part='spellings with blanks in or around event code / gender (optional: unknown pair or right)')
     # (3) bands on the full grid of the rows that have a factor
     ages = FACTOR_AGES_QUICK if tier == 'quick' else ALL_BANDS
     chunks = []
